@@ -19,9 +19,11 @@ type HashBinCase struct {
 	// ProjDir names the directory holding the spokfile ("" = proj)
 	ProjDir string `json:"proj_dir,omitempty"`
 	// Invoke: how spok is pointed at the project (sandbox.Box.Invoke)
-	Invoke string   `json:"invoke,omitempty"`
-	Kinds  []string `json:"kinds"` // regular dir missing dangling symlink unreadable
-	Flags  []string `json:"flags"`
+	Invoke string `json:"invoke,omitempty"`
+	// Outputs: "files" = standard output and error are regular files (sandbox.Box.FileOutputs)
+	Outputs string   `json:"outputs,omitempty"`
+	Kinds   []string `json:"kinds"` // regular dir missing dangling symlink unreadable
+	Flags   []string `json:"flags"`
 	// Prime: every dependency first exists as a regular file and the task is run successfully (twice:
 	// the second run is a skip), only then do the dependencies take the kinds above. A recorded
 	// digest must not make spok forgiving about a dependency it can no longer read.
@@ -37,6 +39,7 @@ func genHashBin(t *rapid.T) HashBinCase {
 	c := genHashBinBody(t)
 	c.ProjDir = genProjDir(t)
 	c.Invoke = genInvoke(t)
+	c.Outputs = genOutputs(t)
 	return c
 }
 
@@ -56,6 +59,7 @@ func execHashBin(s *ev.Shard, b *sandbox.Box, c HashBinCase) *rp.Fail {
 	if err := b.ResetFor(c.ProjDir, c.Invoke); err != nil {
 		return &rp.Fail{Sig: "harness", Msg: err.Error()}
 	}
+	b.FileOutputs = c.Outputs == "files"
 	var deps []string
 	files := map[string]string{}
 	var post []func() error
